@@ -4,6 +4,7 @@
 From Coq Require Import List NArith Bool.
 From NoKV Require Import Base.Bytes Base.Sched Spec.SerialSpec Spec.Linearizable Model.CommitQueue
                          Proofs.CommitQueueProofs Proofs.CommitQueueLin Proofs.CommitQueueClose.
+From NoKV Require Model.TxnOracle Proofs.TxnNoHang.
 Import ListNotations.
 Local Open Scope N_scope.
 
@@ -75,3 +76,22 @@ Theorem C37_closed_is_stable :
   forall g t g', tstep g t = Some g' -> closed_b (g_close g) = true -> closed_b (g_close g') = true.
 Proof. exact closed_mono. Qed.
 Print Assumptions C37_closed_is_stable.
+
+(** Transaction layer (call-atomic model [Model.TxnOracle]): every exit of
+    Commit after the commit timestamp was issued - success, ErrTxnTooBig from
+    the write path, the closed commit queue, a failing apply - releases the
+    timestamp, so the commit watermark stands at the last issued timestamp in
+    every reachable state and NewTransaction never waits in WaitForMark. *)
+Theorem C37_commit_mark_settled :
+  forall (fp : bytes -> N) (c : TxnOracle.cfg) ops,
+    TxnNoHang.mark_settled
+      (TxnOracle.o_txnmark (TxnOracle.st_orc (TxnOracle.run_state true fp c TxnOracle.st_init ops))).
+Proof. exact TxnNoHang.reachable_settled. Qed.
+Print Assumptions C37_commit_mark_settled.
+
+Theorem C37_begin_never_waits :
+  forall (fp : bytes -> N) (c : TxnOracle.cfg) ops id u,
+    snd (TxnOracle.step true fp c (TxnOracle.run_state true fp c TxnOracle.st_init ops) (TxnOracle.Begin id u))
+    <> TxnOracle.OErr TxnOracle.EHang.
+Proof. exact TxnNoHang.begin_never_waits. Qed.
+Print Assumptions C37_begin_never_waits.
